@@ -61,6 +61,12 @@ structure EqKind where
   loopPre : Mask
   /-- `dst.<name>` reads of `reduce` / `py_initialize` -/
   implicitD : Mask
+  /-- `d_*` arguments an ELEMENT of which some hook uses as an index: inside
+  the subscript of another array, as an argument of `range`, or assigned to a
+  local declared with an integer C type (outside any `cast(...)`) -/
+  idxD : Mask
+  /-- the same for `s_*` arguments -/
+  idxS : Mask
   deriving Repr
 
 structure StepKind where
@@ -69,6 +75,8 @@ structure StepKind where
   methods : List (String × Mask)
   /-- `dst.<name>` reads of `py_stage*` -/
   implicitD : Mask
+  /-- `d_*`/`s_*` arguments an element of which `initialize` / `stage*` use as an index -/
+  idx : Mask
   deriving Repr
 
 structure EqInst where
@@ -79,14 +87,30 @@ structure EqInst where
   sources : Option (List Nat)
   deriving Repr
 
+/-- the C element types of the properties and constants of one array after
+`setup_properties` (`carray.get_c_type()`: IntArray `int`, UIntArray
+`unsigned int`, LongArray `long`, FloatArray `float`, DoubleArray `double`),
+one mask of names per type, and the strides that are not 1 (name position,
+stride) -/
+structure ArrTypes where
+  int : Mask
+  uint : Mask
+  long : Mask
+  float : Mask
+  double : Mask
+  strides : List (Nat × Nat)
+  deriving Repr
+
 /-- what one configuration yields: the arrays after `setup_properties`
 (name id, properties ∪ constants), the equations of `get_equations` (all
 stages and groups flattened, in order), the integrator's steppers
-(stepper kind, array index) -/
+(stepper kind, array index), and the C types of every array's properties
+(parallel to `arrays`) -/
 structure Body where
   arrays : List (Nat × Mask)
   eqs : List EqInst
   steppers : List (Nat × Nat)
+  types : List ArrTypes
   deriving Repr
 
 /-- the option grid of one scheme: `bodyOf` has one entry per grid point in
@@ -194,6 +218,65 @@ def checkStepper (sk : List StepKind) (b : Body) (st : Nat × Nat) : Bool :=
 def checkBody (t : List PreSym) (kinds : List EqKind) (sk : List StepKind) (b : Body) : Bool :=
   b.eqs.all (checkEq t kinds b) && b.steppers.all (checkStepper sk b)
 
+/-! ## C types of the array arguments: what the code generator is told
+
+pysph/sph/acceleration_eval_cython_helper.py : get_all_array_names collects,
+over ALL particle arrays of the problem, the names of every carray class;
+get_known_types_for_arrays turns them into `KnownType("<c type>*")` for
+`d_<name>` and `s_<name>`; compyle's CythonGenerator.detect_type uses the known
+type for a hook argument and falls back to `double*` for an unknown `d_`/`s_`
+name.  An element of a `double*`/`float*` argument cannot be used as a subscript
+(Cython: "Invalid index type 'double'") nor be assigned to a local declared
+`int`/`long`/`unsigned int` ("Cannot assign type 'double' to 'int'"): the
+generated module is rejected. -/
+
+/-- names with an integer element type in this array -/
+def ArrTypes.integral (a : ArrTypes) : Mask := a.int ||| a.uint ||| a.long
+/-- names with a floating element type in this array -/
+def ArrTypes.floating (a : ArrTypes) : Mask := a.float ||| a.double
+
+/-- names some array of the configuration has with an integer type -/
+def intKnown (b : Body) : Mask := b.types.foldl (fun acc a => acc ||| a.integral) 0
+/-- names some array of the configuration has with a floating type -/
+def floatKnown (b : Body) : Mask := b.types.foldl (fun acc a => acc ||| a.floating) 0
+
+/-- the index uses of one equation instance (0 when the kind does not exist:
+`checkBody` is what complains about that) -/
+def eqIdx (kinds : List EqKind) (e : EqInst) : Mask :=
+  match kinds[e.kind]? with
+  | some k => k.idxD ||| k.idxS
+  | none => 0
+
+def stIdx (sk : List StepKind) (st : Nat × Nat) : Mask :=
+  match sk[st.1]? with
+  | some k => k.idx
+  | none => 0
+
+/-- every name an element of which is used as an index anywhere in the configuration -/
+def idxUsed (kinds : List EqKind) (sk : List StepKind) (b : Body) : Mask :=
+  b.eqs.foldl (fun acc e => acc ||| eqIdx kinds e) 0 |||
+  b.steppers.foldl (fun acc st => acc ||| stIdx sk st) 0
+
+/-- the recorded types of one array partition its property ∪ constant names -/
+def typedArr (a : Nat × Mask) (t : ArrTypes) : Bool :=
+  (t.int ||| t.uint ||| t.long ||| t.float ||| t.double) == a.2 &&
+  (t.int &&& t.uint) == 0 && ((t.int ||| t.uint) &&& t.long) == 0 &&
+  (t.integral &&& t.float) == 0 && ((t.integral ||| t.float) &&& t.double) == 0
+
+def typedAll : List (Nat × Mask) → List ArrTypes → Bool
+  | [], [] => true
+  | a :: as, t :: ts => typedArr a t && typedAll as ts
+  | _, _ => false
+
+/-- **the type check**: every property has exactly one recorded C type, and
+every name used as an index is an `int`/`unsigned int`/`long` property of some
+array and a `float`/`double` property of none (so the known type the code
+generator gets for `d_<name>`/`s_<name>` is an integer pointer) -/
+def typesOk (kinds : List EqKind) (sk : List StepKind) (b : Body) : Bool :=
+  typedAll b.arrays b.types &&
+  subsetB (idxUsed kinds sk b) (intKnown b) &&
+  ((idxUsed kinds sk b &&& floatKnown b) == 0)
+
 /-! ## grids -/
 
 /-- number of points of the grid -/
@@ -278,6 +361,33 @@ def PointAccepted (t : List PreSym) (kinds : List EqKind) (sk : List StepKind) (
     (g : SchemeGrid) (i : Nat) : Prop :=
   ∃ c, g.bodyOf[i]? = some c ∧
     (c = 0 ∨ ∃ b, bodies[c - 1]? = some b ∧ acceptsBody t kinds sk b = true)
+
+/-! ### specification of the type check -/
+
+/-- an element of the array argument `d_p` / `s_p` is used as an index by an
+equation or a stepper of the configuration -/
+def IndexUsed (kinds : List EqKind) (sk : List StepKind) (b : Body) (p : Nat) : Prop :=
+  (∃ e ∈ b.eqs, ∃ k, kinds[e.kind]? = some k ∧ (k.idxD.testBit p = true ∨ k.idxS.testBit p = true)) ∨
+  (∃ st ∈ b.steppers, ∃ k, sk[st.1]? = some k ∧ k.idx.testBit p = true)
+
+/-- the known type of `d_p` / `s_p` is an integer pointer: some array has `p`
+with an integer element type, no array has it with a floating one -/
+def KnownIntegral (b : Body) (p : Nat) : Prop :=
+  (∃ t ∈ b.types, t.integral.testBit p = true) ∧ ∀ t ∈ b.types, t.floating.testBit p = false
+
+/-- every property / constant of every array has a recorded C type -/
+def AllTyped : List (Nat × Mask) → List ArrTypes → Prop
+  | [], [] => True
+  | a :: as, t :: ts =>
+    (∀ p, a.2.testBit p = true ↔ (t.integral ||| t.floating).testBit p = true) ∧ AllTyped as ts
+  | _, _ => False
+
+def TypesOk (kinds : List EqKind) (sk : List StepKind) (b : Body) : Prop :=
+  AllTyped b.arrays b.types ∧ ∀ p, IndexUsed kinds sk b p → KnownIntegral b p
+
+def PointTypesOk (kinds : List EqKind) (sk : List StepKind) (bodies : List Body)
+    (g : SchemeGrid) (i : Nat) : Prop :=
+  ∃ c, g.bodyOf[i]? = some c ∧ (c = 0 ∨ ∃ b, bodies[c - 1]? = some b ∧ TypesOk kinds sk b)
 
 /-- a multi-index: one digit per axis, each below the number of values of the axis -/
 def ValidDigits : List Nat → List Nat → Prop
